@@ -17,6 +17,7 @@ import XetModel.Cache
 import XetModel.Prim.Crc32
 import Driver.Util
 namespace Xet.Drv
+namespace CacheDrv
 open Xet.Cache
 
 def realCrc (b : Bytes) : UInt32 := Xet.Prim.crc32L b
@@ -344,10 +345,13 @@ def handleConc (blob : Blob) (toks : List String) : String :=
       " | ".intercalate outs.reverse
   | _, _, _, _, _ => "bad-op"
 
+end CacheDrv
+
+/-- entry point of the chunk-cache handler (all helpers live in `Xet.Drv.CacheDrv`) -/
 def handleCache (blob : Blob) (cmd : String) (toks : List String) : String :=
   match cmd with
-  | "cache.seq" => handleSeq blob toks
-  | "cache.conc" => handleConc blob toks
+  | "cache.seq" => CacheDrv.handleSeq blob toks
+  | "cache.conc" => CacheDrv.handleConc blob toks
   | _ => "bad-op"
 
 end Xet.Drv
